@@ -19,7 +19,8 @@ META = {
     'level_text': 'C36_same_value (every column class incl. nested List/Set/Map/Tuple/UDT x every valid value: to_database output '
                   'denotes the CQL value cqltypes serialisation encodes for the original value), C36_datetime_exact_ms (every '
                   'wall clock, every utcoffset function incl. DST: stored ms = floor of the exact instant, exact on whole ms, truncation toward zero below), '
-                  'C36_datetime_naive_is_utc; pre-repair float/epoch-offset code refuted by computed witnesses.',
+                  'C36_datetime_naive_is_utc; C36_resend (same object sent n times); the CQL literal actually sent (Encoder, Duration/Time __str__) is part of '
+                  'C36_same_value; pre-repair float/epoch-offset code refuted; C36_full_statement (core float path everywhere) refuted = open C36-5.',
     'level_note': 'Hand-written model tied by correspondence only (tie C). Trusted: Coq kernel, harness (spec builders, struct-level '
                   'decoder, tz rule zones), Python datetime/timedelta arithmetic (wall-clock microseconds are harness inputs), '
                   'the CQL literal path (Encoder + server parsing) is represented by `denote`, tied to cqltypes.serialize of the '
@@ -188,9 +189,12 @@ def gen_val(rng, spec, key=False):
             return d
         return gen_datetime_exact_range(rng)
     if k == 'Duration':
-        return ['duration', rng.choice([0, 1, -1, 2 ** 31 - 1, rng.randrange(-1000, 1000)]),
-                rng.choice([0, 1, -1, rng.randrange(-10 ** 5, 10 ** 5)]),
-                rng.choice([0, 1, -1, 2 ** 63 - 1, rng.randrange(-10 ** 15, 10 ** 15)])]
+        # components of one sign (Cassandra rejects mixed signs); every subset of the components may be zero
+        sg = rng.choice([1, 1, -1, -1, -1])
+        mo = rng.choice([0, 0, 1, 2 ** 31 - 1, rng.randrange(0, 1000)])
+        d = rng.choice([0, 1, 3, 7, rng.randrange(0, 10 ** 5)])
+        ns = rng.choice([0, 0, 1, 2 ** 63 - 1, rng.randrange(0, 10 ** 15)])
+        return ['duration', sg * mo, sg * d, sg * ns]
     if k == 'List':
         return [rng.choice(['list', 'list', 'tuple']), [gen_val(rng, spec[1]) for _ in range(rng.choice([0, 1, 2, 4]))]]
     if k == 'Set':
@@ -243,25 +247,46 @@ def exact_ms(dt):
     return us
 
 
+def snapshot(v, colspec):
+    try:
+        return H.gal_py(v, colspec)
+    except H.Unprintable:
+        return None
+
+
 def evaluate(colspec, valspec):
-    """Drive the REAL column.  Returns dict with the observables and the list of property failures at this case."""
+    """Drive the REAL column, step by step: core encoding of the pristine value, first to_database, state of the argument
+    afterwards, the literal the Encoder renders, a second to_database of the SAME object."""
     col = H.build_col(colspec)
     v = H.build_val(valspec, col)
     t = col.cql_type
-    out = {'col': col, 'v': v, 'x': None, 'x_exc': None, 'den': None, 'prep': None, 'fails': []}
-    try:
-        out['x'] = col.to_database(v)
-    except Exception as e:
-        out['x_exc'] = type(e).__name__
+    out = {'col': col, 'v': v, 'x': None, 'x_exc': None, 'den': None, 'prep': None, 'fails': [], 'lit': None, 'lit_gal': None,
+           'lit_val': None, 'lit_exc': None, 'x2_den': None, 'x2_exc': None}
     try:
         out['prep'] = H.decode(t, t.serialize(v, 4))
     except Exception as e:
         out['prep_exc'] = type(e).__name__
+    out['v_before'] = snapshot(v, colspec)
+    try:
+        out['x'] = col.to_database(v)
+    except Exception as e:
+        out['x_exc'] = type(e).__name__
+    out['v_after'] = snapshot(v, colspec)
     if out['x_exc'] is None:
         try:
             out['den'] = H.decode(t, t.serialize(out['x'], 4))
         except Exception as e:
             out['den_exc'] = type(e).__name__
+        try:
+            out['lit'] = H.make_encoder(col).cql_encode_all_types(out['x'])
+            out['lit_gal'], out['lit_val'] = H.read_literal(out['lit'], t)
+        except Exception as e:
+            out['lit_exc'] = '%s: %s' % (type(e).__name__, str(e)[:120])
+        try:
+            x2 = col.to_database(v)                     # the same object sent again
+            out['x2_den'] = H.decode(t, t.serialize(x2, 4))
+        except Exception as e:
+            out['x2_exc'] = type(e).__name__
     return out
 
 
@@ -291,6 +316,21 @@ def oracle(colspec, valspec, ev, valid=True):
                       '%s: cqltypes cannot encode %s' % (name, 'the to_database output' if ev['den'] is None else 'the original value'),
                       'encodable', ev.get('den_exc') or ev.get('prep_exc')))
         return fails
+    if ev['v_before'] is not None and ev['v_after'] != ev['v_before']:
+        fails.append(('%s.to_database.writes-its-argument' % name,
+                      '%s.to_database changed the object it was given: %s -> %s' % (name, ev['v_before'][:200], (ev['v_after'] or '?')[:200]),
+                      ev['v_before'][:300], (ev['v_after'] or '?')[:300]))
+    if ev['x2_exc'] is not None or H.canon(ev['x2_den']) != H.canon(ev['prep']):
+        fails.append(('%s.to_database.second-send-differs' % name,
+                      '%s: sending the same object a second time gives %r, the core driver encodes %r' % (name, ev['x2_exc'] or ev['x2_den'], ev['prep']),
+                      repr(ev['prep']), repr(ev['x2_exc'] or ev['x2_den'])))
+    if ev['lit_val'] is None:
+        fails.append(('%s.literal.unreadable' % name, '%s: the CQL literal %r cannot be read as %s (%s)' % (
+            name, (ev['lit'] or '')[:200], ev['col'].db_type, ev['lit_exc']), 'a literal of type ' + ev['col'].db_type, ev['lit_exc']))
+    elif H.canon(ev['lit_val']) != H.canon(ev['prep']):
+        fails.append(('%s.literal.value-differs' % name,
+                      '%s: the CQL literal sent, %s, denotes %r; the core driver encodes %r' % (name, ev['lit'][:200], ev['lit_val'], ev['prep']),
+                      repr(ev['prep']), repr(ev['lit_val'])))
     if H.canon(ev['den']) != H.canon(ev['prep']):
         fails.append(('%s.value-differs%s' % (name, '.datetime' if has_datetime_col(colspec) else ''),
                       '%s: to_database output denotes %r, the core driver encodes %r' % (name, ev['den'], ev['prep']),
@@ -309,13 +349,22 @@ def submilli_oracle(valspec, ev):
     if not (isinstance(got, int) and got in (us // 1000, -(-us // 1000))):
         return [('DateTime.to_database.%s.not-exact-ms' % kind,
                  'DateTime.to_database(%r) = %r, exact instant is %d us' % (ev['v'], got, us), us // 1000, got)]
+    core = ev['prep'][1] if ev['prep'] else None
+    if core != got:
+        # cqlengine sends the exact truncation; the core float expression differs
+        where = 'far-from-epoch' if abs(got) >= 2 ** 44 else 'near-epoch'
+        return [('DateType.serialize.float-path.%s' % where,
+                 'cqlengine sends %r for %r (exact instant %d us), the core driver\'s DateType.serialize sends %r' % (got, ev['v'], us, core),
+                 got, core)]
     return []
 
 
 def coq_case(colspec, valspec, ev, valid):
     """Gallina boolean: the model agrees with every recorded observable of the implementation at this case"""
     try:
-        gv = H.gal_py(ev['v'], colspec)
+        gv = ev['v_before']                         # the argument as it was BEFORE the call
+        if gv is None:
+            return None
         gx = None if ev['x_exc'] is not None else H.gal_py(ev['x'], colspec)
     except H.Unprintable:
         return None
@@ -328,6 +377,11 @@ def coq_case(colspec, valspec, ev, valid):
             parts.append('opt_eqb value_eqb (prepared_value (cql_type %s) %s) (Some %s)' % (gc, gv, H.gal_value(ev['prep'])))
         if gx is not None and ev['den'] is not None:
             parts.append('opt_eqb value_eqb (denote (cql_type %s) %s) (Some %s)' % (gc, gx, H.gal_value(ev['den'])))
+        if gx is not None and ev['lit_gal'] is not None:
+            parts.append('opt_eqb lit_eqb (encode_literal %s) (Some %s)' % (gx, ev['lit_gal']))
+            parts.append('opt_eqb value_eqb (lit_value (cql_type %s) %s) (Some %s)' % (gc, ev['lit_gal'], H.gal_value(ev['lit_val'])))
+        if ev['v_after'] is not None:
+            parts.append('pyval_eqb (arg_after %s %s) %s' % (gc, gv, ev['v_after']))
     else:
         # malformed / out-of-domain stream: whenever the model claims a result it must be the implementation's
         parts.append('negb (valid %s %s)' % (gc, gv))
@@ -379,6 +433,11 @@ def run(ctx):
         for key, what, exp, act in fails:
             ctx.violation(key, what, case={'col': colspec, 'val': valspec}, expected=exp, actual=act,
                           theorem='C36_datetime_exact_ms' if 'not-exact-ms' in key else 'C36_same_value')
+        if tag == 'submilli' and ev['prep'] and ev['v_before']:
+            # the bit-exact model of the core float expression, on every datetime
+            w, tzn = valspec[1], valspec[2]
+            cases.append('(core_datetime_ms_float %s %s =? %s)' % (H.z(w), '(Some zone_%s)' % tzn if tzn else 'None', H.z(ev['prep'][1])))
+            meta.append((colspec, valspec, 'core ' + repr(ev['prep']), None))
         if tag != 'submilli':
             c = coq_case(colspec, valspec, ev, valid)
             if c is not None:
